@@ -1,0 +1,55 @@
+//go:build verif
+// +build verif
+
+// Contracts for package space (build tag verif only; no executable code).
+package space
+
+// C12 / C01: no metric hands a negative distance to the index. A negative priority makes utils.priorityQueue.Push panic
+// ("Negative priority") - in a search goroutine, and in partition.process on every replica for every replay of the entry.
+// The kernels behind SpaceImpl are machine code (C15 is not applicable): for Euclidean (square root of a sum of squares) and
+// Manhattan (sum of absolute values) non-negativity is taken from them; the cosine kernel computes 1 - cos, which float32
+// rounding can take below zero, so there the guard is in the Go code (Abs) and is verified.
+
+//@ func iface:index/space.SpaceImpl.EuclideanDistance
+//@ props C12 C01
+//@ assume
+//@ trust kernels: a Euclidean distance kernel returns the square root of a sum of squares: never a negative number (possibly NaN or +Inf)
+//@ pure
+//@ ensures [non-negative] !(ret < 0)
+//@ modifies nothing
+//@ func iface:index/space.SpaceImpl.ManhattanDistance
+//@ props C12 C01
+//@ assume
+//@ trust kernels: a Manhattan distance kernel returns a sum of absolute values: never a negative number (possibly NaN or +Inf)
+//@ pure
+//@ ensures [non-negative] !(ret < 0)
+//@ modifies nothing
+//@ func iface:index/space.SpaceImpl.CosineDistance
+//@ props C12 C01
+//@ assume
+//@ pure
+//@ modifies nothing
+
+//@ func math.Abs
+//@ props C12 C01
+//@ assume
+//@ trust float: |x| has a cleared sign bit and the float64 -> float32 conversion keeps the sign; NaN compares false with everything
+//@ pure
+//@ ensures [non-negative] !(ret < 0)
+//@ modifies nothing
+
+//@ func (*index/space.Euclidean).Distance
+//@ props C12 C01
+//@ requires [impl] this != nil && !isnil(this.impl)
+//@ ensures [C12 non-negative] !(ret < 0)
+//@ modifies nothing
+//@ func (*index/space.Manhattan).Distance
+//@ props C12 C01
+//@ requires [impl] this != nil && !isnil(this.impl)
+//@ ensures [C12 non-negative] !(ret < 0)
+//@ modifies nothing
+//@ func (*index/space.Cosine).Distance
+//@ props C12 C01
+//@ requires [impl] this != nil && !isnil(this.impl)
+//@ ensures [C12 non-negative] !(ret < 0)
+//@ modifies nothing
